@@ -636,6 +636,7 @@ func runC14(cfg Config) {
 	}
 	// (f) the casync protocol as a whole session: real client, real server, scripted store (protosession.go)
 	runProtoSessions(cfg, rep, m, rng, cfg.N(250, 6000), cfg.N(250, 6000))
+	runSshPool(cfg, rep, m, rng)
 	c14CLI(cfg, rep, rng)
 	c14IndexUpstreams(cfg, rep, rng)
 	runGCSMissingVsFailed(cfg, rep, m, rng)
